@@ -203,3 +203,15 @@ Proof.
   pose proof (unstopped_verdict_has_all_hashes c s ResFalse expd Hn Hr HY Hres (or_intror eq_refl) Hs) as Hlen.
   pose proof (verify_false_on_intact_is_incomplete c s expd Hr Hv HY Hres). lia.
 Qed.
+
+(* ... with exactly the reference hashes, in piece order *)
+Theorem unstopped_generate_stores_reference c s r hs :
+  (1 <= cf_hashers c)%nat -> reach c s -> cf_verify c = None ->
+  yielded (cf_items c) = map RPiece hs -> cf_total c = zlen hs ->
+  s_result s = Some r -> verdict r -> s_stop s = false ->
+  r = ResTrue /\ sorted_hashes (s_hashes s) = hs.
+Proof.
+  intros Hn Hr Hgen HY Htot Hres Hv Hs.
+  pose proof (generate_unstopped_returns_true c s r hs Hn Hr Hgen HY Htot Hres Hv Hs) as ->.
+  split; [reflexivity|]. exact (true_means_reference c s hs Hr Hgen HY Htot Hres).
+Qed.
